@@ -437,6 +437,56 @@ def run(ctx):
         ctx.violation('shared secret is not one fresh 16-byte os.urandom draw per login',
                       {'draw_sizes': [n for n, _ in draws][:8], 'distinct': len(set(secrets))},
                       key={'kind': 'secret-draw'})
+    keys_tie(ctx)
+
+
+def keys_tie(ctx):
+    """Tie of Model/C18Keys.lean (driver `keys.run`, `kstack`, `kchan`) to the real code.  The observation script
+    harness/xcheck/c18keys_xcheck.py <N> <seed> replaces os.urandom process-wide while it runs, hence a subprocess
+    (which also bounds the run: a hang of the code under test ends in the timeout and is reported as a
+    disagreement).  It prints `request<TAB>expected` lines: the real LoginReactor on recording socket / file
+    objects with a table of os.urandom draws (chunks given to the real socket, number of draws, join arguments,
+    reactor state, exception, secrets recovered with the raw RSA private-key operation), and the real wrapper
+    classes nested 0-3 deep.  All randomness from the seed drawn here from ctx.rng."""
+    import os
+    import subprocess
+    import sys
+    import lib
+    script = os.path.join(os.path.dirname(os.path.dirname(os.path.abspath(__file__))), 'xcheck', 'c18keys_xcheck.py')
+    n = ctx.scale(40, 600)
+    seed = ctx.rng.getrandbits(48)
+    env = dict(os.environ, PYCRAFT_REPO=lib.REPO, PYTHONDONTWRITEBYTECODE='1')
+    try:
+        p = subprocess.run([sys.executable, script, str(n), str(seed)], capture_output=True, text=True, env=env,
+                           timeout=60 + n)
+    except subprocess.TimeoutExpired:
+        ctx.disagree('keys.run/kstack: the real-code observation script did not finish in %d s (the code under test '
+                     'hangs or spins)' % (60 + n), [script, n, seed], None, 'timeout')
+        return
+    pairs = [l.split('\t') for l in p.stdout.splitlines()]
+    if p.returncode != 0 or len(pairs) < 2 * n or any(len(x) != 2 for x in pairs):
+        ctx.disagree('keys.run/kstack: the real-code observation script could not run against this tree',
+                     [script, n, seed], None, (p.stderr or p.stdout)[-1500:])
+        return
+    npairs = {}
+    for (req, exp), mo in zip(pairs, ctx.driver.ask([q for q, _ in pairs])):
+        cmd = req.split(' ', 1)[0]
+        if mo == 'skip:deflate':              # zlib is a parameter of the model: such a run is not rendered
+            ctx.count('keys.skipped-deflate')
+            continue
+        ctx.case(('c18keys', req), sample={'op': cmd, 'impl': exp[:160]} if cmd == 'keys.run' else None)
+        ctx.count('keys.' + cmd)
+        npairs[cmd] = npairs.get(cmd, 0) + 1
+        if cmd == 'keys.run':
+            ctx.count('keys.run.requests', sum(t.startswith('enc:') for t in req.split()))
+            ctx.count('keys.run.err.' + exp.rsplit(' err=', 1)[-1].split(':')[0].split(' ')[0])
+        if mo != exp:
+            ctx.disagree({'keys.run': 'keys.run vs the real LoginReactor on a recording socket with stubbed os.urandom',
+                          'kstack': 'kstack vs the real wrapper classes nested',
+                          'kchan': 'kchan vs the real wrapper classes'}.get(cmd, cmd), req[:3000], mo[:1500], exp[:1500])
+    for cmd, k in npairs.items():
+        name = 'c18%s_pairs' % cmd.replace('.', '')
+        ctx.extra[name] = ctx.extra.get(name, 0) + k
 
 
 def replay(ctx, rp):
